@@ -13,10 +13,11 @@ import (
 
 // Analysis runs every rule on one loaded configuration.
 type Analysis struct {
-	P  *Program
-	G  *Globals
-	Ef *Effects
-	R  *Result
+	kindIs map[*types.Named]int // error types whose Is method compares one field: that field (-1: not of that shape)
+	P      *Program
+	G      *Globals
+	Ef     *Effects
+	R      *Result
 
 	// API entry points, resolved by exported name
 	// (NME, NM, CM, MTS are the functions holding the bodies: a thin forwarding wrapper
